@@ -15,7 +15,6 @@ indeterminate, CELL = part of a non-byte value kept in Obj.cells.
 Nothing here executes igris code: the IR is interpreted over this abstract domain; every branch it takes is decided by
 concrete sizes/positions or by the oracle's answer, content bytes stay symbolic.
 """
-from irlib import AnalysisBroken
 
 NULLP = ('p', 0, 0)
 COMPAR = ('f', '<comparator>')
@@ -58,6 +57,8 @@ def show(v):
         return ' + '.join(['%d*%s' % (k, show_byte(a)) for a, k in v[2]] + [str(v[1])])
     if isinstance(v, tuple) and v[0] == 'w':
         return 'bytes' + show_bytes(v[1])
+    if isinstance(v, tuple) and v[0] == 'b':
+        return 'a condition on %s' % show_byte(v[1])
     return repr(v)
 
 
@@ -503,6 +504,13 @@ class Machine:
             raise Unresolved('integer operation %s' % op)
         ta = a[0] if isinstance(a, tuple) else None
         tb = b[0] if isinstance(b, tuple) else None
+        if (ta == 'b' or tb == 'b') and w == 1 and op in ('and', 'or', 'xor') and ta in (None, 'b') and tb in (None, 'b'):
+            r = self.bool_op(st, op, a, b)
+            if r is not None:
+                return r
+        if ta == 'b' or tb == 'b':
+            x = a if ta == 'b' else b
+            raise Unresolved('operation %s on a condition that depends on %s' % (op, show_byte(x[1])))
         if ta == 'a' or tb == 'a':
             if op == 'add' and ta == 'a' and tb is None:
                 return ('a', a[1], a[2] + sx(b, w))
@@ -634,6 +642,43 @@ class Machine:
                 start, cur = v, t
         return ('fork', alts)
 
+    def lazy_bool(self, st, atom, truth):
+        """('b', atom, values of the symbol for which the condition holds): a condition on ONE ranged symbol that is not
+        decided by its class; the path is split only where such a value reaches a branch (a disjunct that is masked by
+        a decided one never splits anything)"""
+        lo, hi = st.ranges[atom]
+        tv = frozenset(v for v in range(lo, hi + 1) if truth(v))
+        if not tv:
+            return 0
+        if len(tv) == hi - lo + 1:
+            return 1
+        return ('b', atom, tv)
+
+    def bool_split(self, st, b, on_true, on_false):
+        """fork alternatives of the lazy boolean b"""
+        return self.split_atom(st, b[1], lambda v: on_true if v in b[2] else on_false, 'bool')[1]
+
+    def bool_op(self, st, op, a, b):
+        """and / or / xor of i1 values of which at least one is lazy"""
+        ba = isinstance(a, tuple)
+        bb = isinstance(b, tuple)
+        if ba and bb:
+            if a[1] != b[1]:
+                return None
+            lo, hi = st.ranges[a[1]]
+            f = {'and': lambda x, y: x and y, 'or': lambda x, y: x or y, 'xor': lambda x, y: x != y}[op]
+            return self.lazy_bool(st, a[1], lambda v: f(v in a[2], v in b[2]))
+        if bb:
+            a, b = b, a
+        c = b & 1
+        if op == 'and':
+            return a if c else 0
+        if op == 'or':
+            return 1 if c else a
+        if c == 0:
+            return a
+        return self.lazy_bool(st, a[1], lambda v: v not in a[2])
+
     def lin_icmp(self, st, pred, a, b, w, may_fork=False):
         la, lb = self.lin_of(st, a, w), self.lin_of(st, b, w)
         if la is None or lb is None:
@@ -673,14 +718,14 @@ class Machine:
                 return 1 if pred == 'eq' else 0
             if may_fork and len(terms) == 1 and dhi - dlo < (1 << w) and max(abs(dlo), abs(dhi)) < (1 << w):
                 (x, k), c0 = terms[0], la[0] - lb[0]
-                return self.split_atom(st, x, lambda v: self.rel(pred, c0 + k * v, 0), pred)
+                return self.lazy_bool(st, x, lambda v: self.rel(pred, c0 + k * v, 0))
             raise Unresolved('a branch depends on the characters of the text beyond their class (%s %s %s)' % (show(a), pred, show(b)))
         lo_r, hi_r = self.rel(pred, dlo, 0), self.rel(pred, dhi, 0)
         if lo_r == hi_r:
             return lo_r
         if may_fork and len(terms) == 1:
             (x, k), c0 = terms[0], la[0] - lb[0]
-            return self.split_atom(st, x, lambda v: self.rel(pred, c0 + k * v, 0), pred)
+            return self.lazy_bool(st, x, lambda v: self.rel(pred, c0 + k * v, 0))
         raise Unresolved('a branch depends on the characters of the text beyond their class (%s %s %s)' % (show(a), pred, show(b)))
 
     def word(self, bs):
@@ -706,6 +751,8 @@ class Machine:
             return self.rel(pred, a, b)
         ta = None if ia else a[0]
         tb = None if ib else b[0]
+        if ta == 'b' and ib and pred in ('eq', 'ne'):
+            return a if (pred == 'ne') == (b == 0) else self.bool_op(st, 'xor', a, 1)
         if ta in ('p', 'a') or tb in ('p', 'a'):
             if ia:
                 a = ('p', 0, a)
@@ -855,6 +902,9 @@ class Machine:
                 return 1
             if all(hi < a or lo > b for a, b in CTYPE[name]):
                 return 0
+            if len(l[1]) == 1 and l[1][0][1] == 1:
+                x, c0 = l[1][0][0], l[0]
+                return ('fork', self.split_atom(st, x, lambda v: int(any(a <= c0 + v <= b for a, b in CTYPE[name])), name)[1])
             raise Unresolved('%s() of a character whose class (%d..%d) does not decide it' % (name, lo, hi))
         if name in ('rand', 'random', 'lrand48'):
             return ('r', 0, INT_MAX)
@@ -955,6 +1005,8 @@ class Machine:
                 return None
             c = val(fr, ops[0])
             if not isinstance(c, int):
+                if isinstance(c, tuple) and c[0] == 'b':
+                    return ('forkgoto', self.bool_split(st, c, i.d['t'], i.d['f']))
                 raise Unresolved('branch on %s' % show(c))
             self.goto(st, fr, i.d['t'] if c & 1 else i.d['f'])
             return None
@@ -962,7 +1014,7 @@ class Machine:
             a, b = val(fr, ops[0]), val(fr, ops[1])
             w = ops[0][2] or ops[1][2] or 64
             r = self.icmp(st, i.d['pred'], a, b, w, True)
-            if isinstance(r, tuple):
+            if isinstance(r, tuple) and r[0] == 'fork':
                 return r
             fr.env[i.id] = r
             fr.idx += 1
@@ -1048,6 +1100,8 @@ class Machine:
                     v = sx(v, w0) & ((1 << w1) - 1)
                 elif op == 'trunc':
                     v &= (1 << w1) - 1
+            elif v[0] == 'b' and op in ('zext', 'sext'):
+                return ('fork', self.bool_split(st, v, 1 if op == 'zext' else (1 << w1) - 1, 0))
             elif v[0] == 'l':
                 lo, hi = self.lin_range(st, v[1], v[2])
                 if op == 'zext' and not (0 <= lo and hi < (1 << w0)):
@@ -1127,6 +1181,18 @@ class Machine:
             return None
         if op == 'select':
             c = val(fr, ops[0])
+            if isinstance(c, tuple) and c[0] == 'b':
+                x, y = val(fr, ops[1]), val(fr, ops[2])
+                if x == y:
+                    fr.env[i.id] = x
+                    fr.idx += 1
+                    return None
+                if i.ty.get('bits') == 1 and isinstance(x, int) and isinstance(y, int):
+                    # select c, 1, 0 = c ; select c, 0, 1 = !c
+                    fr.env[i.id] = c if x else self.bool_op(st, 'xor', c, 1)
+                    fr.idx += 1
+                    return None
+                return ('fork', self.bool_split(st, c, x, y))
             if not isinstance(c, int):
                 raise Unresolved('select on %s' % show(c))
             fr.env[i.id] = val(fr, ops[1] if c & 1 else ops[2])
